@@ -19,7 +19,8 @@ import vlib
 MODULE_MC = "OTR_MC"
 MODULE_GEN = "OTR_Gen"
 # configs checked for vacuity (thorough tier): actions that the config switches off on purpose
-EXPECT_UNUSED = {"Full": [], "SMP2": ["UserEnd", "Fault"], "Faults": ["UserEnd", "UserAuth"]}
+EXPECT_UNUSED = {"Full": ["UserQuery"], "SMP2": ["UserEnd", "Fault", "UserQuery"], "Faults": ["UserEnd", "UserAuth", "UserQuery"],
+                 "Requery": ["UserEnd", "UserAuth", "Fault"]}
 
 
 def _par(ctx, jobs, max_parallel=6):
@@ -70,7 +71,7 @@ def run(ctx):
     T = ctx.thorough
 
     # ------------------------------------------------------------------ model checking
-    mc = ["Data", "SMPQ", "FaultsQ"] + (["AKE", "SMP", "DataT", "Faults", "SMP2", "Full"] if T else [])
+    mc = ["Data", "SMPQ", "FaultsQ"] + (["AKE", "SMP", "DataT", "Faults", "SMP2", "Full", "Requery"] if T else [])
 
     def mcjob(c):
         return lambda: ctx.tlc(MODULE_MC, cfg="OTR_%s.cfg" % c, workers=4 if T else 2, timeout=2400, count=False,
@@ -79,7 +80,7 @@ def run(ctx):
             "Sim": dict(cfg="OTR_GenSim.cfg", simulate=ctx.pick(220, 1500), depth=40)}
     if T:
         gens.update({"AKE": dict(cfg="OTR_GenAKE.cfg"), "Data": dict(cfg="OTR_GenData.cfg"), "SMPw": dict(cfg="OTR_GenSMP.cfg"),
-                     "FaultsW": dict(cfg="OTR_GenFaults.cfg"), "SMP2w": dict(cfg="OTR_GenSMP2.cfg")})
+                     "FaultsW": dict(cfg="OTR_GenFaults.cfg"), "SMP2w": dict(cfg="OTR_GenSMP2.cfg"), "RequeryW": dict(cfg="OTR_GenRequery.cfg")})
 
     def genjob(k):
         return lambda: ctx.tlc(MODULE_GEN, workers=1, timeout=2400, count=False, note="behaviour generation", **gens[k])
@@ -87,6 +88,12 @@ def run(ctx):
     drv_env = {"VERIF_N": ctx.pick(50, 700), "VERIF_MUT": ctx.pick(60, 400), "VERIF_RAND": ctx.pick(150, 3000)}
     jobs = [("drivers", lambda: ctx.go_test("c47", "^TestDrivers$", env=drv_env, timeout=3000))]
     jobs += [("mc:" + c, mcjob(c)) for c in mc] + [("gen:" + k, genjob(k)) for k in gens]
+    if T:
+        # outside the property's scope (re-keying an encrypted conversation): the model predicts that a message sent between
+        # the arrival of the peer's query and the completion of the new AKE is lost; documented counterexample, and the
+        # RequeryW behaviours confirm on the real code that it behaves as modelled
+        jobs.append(("doc:RequeryLoss", lambda: ctx.tlc(MODULE_MC, cfg="OTR_DocRequeryLoss.cfg", workers=2, timeout=2400, count=False,
+                                                         expect_violation=True, note="expected counterexample: data sent during re-keying is lost")))
     res = _par(ctx, jobs, max_parallel=ctx.pick(7, 8))
     for c in mc:
         r = res["mc:" + c]
@@ -100,6 +107,8 @@ def run(ctx):
             acts = sorted(set(r.coverage_zero) - set(EXPECT_UNUSED[c]) - {"Init"})
             if acts:
                 raise vlib.Infra("vacuity: actions never taken in OTR_%s: %s" % (c, acts))
+    if T and res["doc:RequeryLoss"].violated != "RequeryLosesNothing":
+        ctx.notes.append("the documented counterexample RequeryLosesNothing was not found (TLC: %r)" % res["doc:RequeryLoss"].violated)
     # ------------------------------------------------------------------ binding R: replay of TLC's behaviours
     rnd = random.Random(ctx.seed)
     cases = []
@@ -109,9 +118,9 @@ def run(ctx):
         if not r.ok:
             raise vlib.Infra("generator OTR_%s failed: %s" % (k, (r.cex or r.raw[-2000:])[:3000]))
         tr = [t for t in r.traces if t.get("h")]
-        if k in ("Data", "SMPw", "FaultsW", "SMP2w"):
+        if k in ("Data", "SMPw", "FaultsW", "SMP2w", "RequeryW"):
             tr = _maximal(tr)
-            cap = {"Data": 7000, "SMPw": 2500, "FaultsW": 7000, "SMP2w": 2500}[k]
+            cap = {"Data": 7000, "SMPw": 2500, "FaultsW": 7000, "SMP2w": 2500, "RequeryW": 2500}[k]
             if len(tr) > cap:
                 tr = rnd.sample(tr, cap)
         elif k == "Sim":
